@@ -31,8 +31,8 @@ type Scenario struct {
 	Main     []*lib.BlockSpec
 	Rounds   []Round
 	ObsFrom  uint64 // only blocks >= ObsFrom are queried (0 = all)
-	Warm     bool // ask event queries on node A before each revert (fills the filter cache)
-	Restart  bool // after each round also compare restarted copies of A and B
+	Warm     bool   // ask event queries on node A before each revert (fills the filter cache)
+	Restart  bool   // after each round also compare restarted copies of A and B
 	Seed     uint64
 	Case     int
 	Name     string
